@@ -8,10 +8,15 @@ from modq import ROUTINES, true_q, canon, close, pub, arr_close, CHAN_FIELDS, fu
 ID = 'C07'
 COQ_FILES = ['Base/Mat.v', 'Base/SumQ.v', 'Base/ListX.v', 'Model/Modularity.v', 'Proofs/ModularitySums.v',
              'Proofs/ModularityQ.v', 'Proofs/ModularityGain.v', 'Properties/C07.v']
-THEOREMS = ['C07_init_bk_inv_louvain', 'C07_init_bk_inv_finetune', 'C07_move_preserves_bk_inv', 'C07_gain_exact_und',
-            'C07_gain_exact_dir', 'C07_gain_exact_sign', 'C07_gain_exact_louvainB', 'C07_moves_monotone_und',
-            'C07_moves_monotone_dir', 'C07_moves_monotone_sign', 'C07_moves_monotone_louvainB', 'C07_level_monotone',
-            'C07_levels_strict', 'C07_idempotent_restart', 'C07_louvain_dir_bk_refuted', 'C07_louvain_dir_monotone_refuted']
+THEOREMS = ['C07_init_bk_inv_louvain', 'C07_init_bk_inv_louvain_sign', 'C07_init_bk_inv_finetune',
+            'C07_init_bk_inv_finetune_dir', 'C07_init_bk_inv_finetune_sign', 'C07_move_preserves_bk_inv',
+            'C07_move_preserves_bk_inv_dir', 'C07_move_preserves_bk_inv_sign', 'C07_move_preserves_bk_inv_B',
+            'C07_gain_exact_und', 'C07_gain_exact_dir', 'C07_gain_exact_sign', 'C07_Qsign_is_gen',
+            'C07_gain_exact_louvainB', 'C07_moves_monotone_und', 'C07_moves_monotone_dir', 'C07_moves_monotone_sign',
+            'C07_moves_monotone_louvainB', 'C07_finetune_und_never_worse', 'C07_finetune_dir_never_worse',
+            'C07_finetune_sign_never_worse', 'C07_level_monotone', 'C07_louvain_und_level_hyps', 'C07_levels_strict',
+            'C07_retained_prefix', 'C07_idempotent_restart', 'C07_louvain_dir_bk_refuted',
+            'C07_louvain_dir_monotone_refuted', 'C07_init_bk_inv_louvain_dirfix']
 RULE = ('same generator as C02 (networks n=3..9, integer weights 0..4, signed/binary/directed variants, gamma in '
         '{1, 3/4, 5/4, 13/10}, all qtypes/objectives, random / one-block / shuffled-singleton / non-contiguous initial '
         'partitions); every accepted move of every run is checked; non-trivial = at least one accepted move; distinct by '
@@ -93,7 +98,7 @@ def expected_channels(case, prev_full, k, m):
 
 def run(ctx):
     lines, pend = [], []
-    per = ctx.scale(28, 400)
+    per = ctx.scale(70, 900)
     for fn in ROUTINES:
         R = ROUTINES[fn]
         det = fn in DET
